@@ -165,9 +165,15 @@ fn apply(m: &mut FreeSpaceManager, r: &mut Reference, call: FsCall, notes: &mut 
     Ok(())
 }
 
+thread_local! {
+    /// bytes beyond the last whole block of the device under test (devices whose size is not a
+    /// multiple of the block size: the partial tail block is not addressable)
+    static TAIL_BYTES: std::cell::Cell<u64> = const { std::cell::Cell::new(0) };
+}
+
 fn fresh(data_blocks: usize) -> (FreeSpaceManager, Reference) {
     let mut m = FreeSpaceManager::new();
-    m.initialize((START + data_blocks as u64) * 4096).expect("initialize");
+    m.initialize((START + data_blocks as u64) * 4096 + TAIL_BYTES.with(|t| t.get())).expect("initialize");
     (m, Reference::new(data_blocks))
 }
 
@@ -236,6 +242,9 @@ fn exhaustive(n: usize) -> Result<(u64, u64), (Vec<FsCall>, String)> {
 #[derive(Clone, Debug, Serialize, Deserialize)]
 pub struct FsCase {
     pub data_blocks: usize,
+    /// device size = whole blocks + this many bytes (0..4095)
+    #[serde(default)]
+    pub tail_bytes: u16,
     /// symbolic calls resolved against the reference while running
     pub calls: Vec<SymCall>,
 }
@@ -266,13 +275,15 @@ fn sym_strategy() -> impl Strategy<Value = SymCall> {
 }
 
 fn case_strategy(max_calls: usize) -> BoxedStrategy<FsCase> {
-    (prop_oneof![10usize..64, 64usize..600, 600usize..4000], proptest::collection::vec(sym_strategy(), 1..max_calls))
-        .prop_map(|(data_blocks, calls)| FsCase { data_blocks, calls })
+    (prop_oneof![10usize..64, 64usize..600, 600usize..4000], proptest::collection::vec(sym_strategy(), 1..max_calls), prop_oneof![5 => Just(0u16), 1 => Just(1u16), 1 => Just(512u16), 1 => Just(4095u16), 1 => 1u16..4096])
+        .prop_map(|(data_blocks, calls, tail_bytes)| FsCase { data_blocks, calls, tail_bytes })
         .boxed()
 }
 
 fn run_sym(case: &FsCase, notes: &mut Notes) -> Result<(), String> {
+    TAIL_BYTES.with(|t| t.set(case.tail_bytes as u64));
     let (mut m, mut r) = fresh(case.data_blocks);
+    TAIL_BYTES.with(|t| t.set(0));
     let mut outstanding: Vec<(u64, u64)> = Vec::new();
     for (i, sc) in case.calls.iter().enumerate() {
         let call = match *sc {
@@ -351,7 +362,10 @@ pub fn run(tier: Tier, seed: u64, replay: Option<&str>) -> i32 {
         let r = if doc["mode"] == "exhaustive" {
             let n = doc["data_blocks"].as_u64().unwrap() as usize;
             let path_calls: Vec<FsCall> = serde_json::from_value(doc["path"].clone()).unwrap();
-            run_path(n, &path_calls, &mut Notes::default()).map(|_| ()).map_err(|(i, e)| format!("call {i}: {e}"))
+            TAIL_BYTES.with(|t| t.set(doc["tail_bytes"].as_u64().unwrap_or(0)));
+            let r = run_path(n, &path_calls, &mut Notes::default()).map(|_| ()).map_err(|(i, e)| format!("call {i}: {e}"));
+            TAIL_BYTES.with(|t| t.set(0));
+            r
         } else {
             let case: FsCase = serde_json::from_value(doc["case"].clone()).unwrap();
             run_sym(&case, &mut Notes::default())
@@ -374,7 +388,7 @@ pub fn run(tier: Tier, seed: u64, replay: Option<&str>) -> i32 {
         tier,
         seed,
         "exploration",
-        "(a) exhaustive breadth-first enumeration of every reachable free-set state of devices with 4..N data blocks under every allocate(n), n in 0..=N+1 and u64::MAX, and every release(s, c), s in 14..=total+1, c in 0..=N+1 plus overflow values (states rebuilt by replaying the BFS path); (b) proptest sequences of symbolic calls (allocate small/large, release whole/partial outstanding allocations, releases around the edges of free runs, raw values incl. overflow) on devices of 10-4000 blocks. Oracle: bitmap reference; after every call total free, run count, largest run and the run list equal the true merged free set; failed calls change nothing. Non-trivial (part b): a sequence in which a release merged with both neighbours and a partially overlapping release was rejected; evaluations = sequences + exhaustive transitions.",
+        "(a) exhaustive breadth-first enumeration of every reachable free-set state of devices with 4..N data blocks under every allocate(n), n in 0..=N+1 and u64::MAX, and every release(s, c), s in 14..=total+1, c in 0..=N+1 plus overflow values (states rebuilt by replaying the BFS path); (b) proptest sequences of symbolic calls (allocate small/large, release whole/partial outstanding allocations, releases around the edges of free runs, raw values incl. overflow) on devices of 10-4000 blocks; device sizes are whole blocks or whole blocks plus 1..4095 bytes (the partial tail block is not addressable; the exhaustive part repeats devices of 4-8 blocks with a 512-byte tail). Oracle: bitmap reference; after every call total free, run count, largest run and the run list equal the true merged free set; failed calls change nothing. Non-trivial (part b): a sequence in which a release merged with both neighbours and a partially overlapping release was rejected; evaluations = sequences + exhaustive transitions.",
     );
     ev.started = started;
     // (a) exhaustive
@@ -382,15 +396,20 @@ pub fn run(tier: Tier, seed: u64, replay: Option<&str>) -> i32 {
     let mut states = 0u64;
     let mut transitions = 0u64;
     let mut per_n = serde_json::Map::new();
-    for n in 4..=max_n {
-        match exhaustive(n) {
+    // every device once block-aligned and (up to 8 blocks) once with a partial tail block
+    let plan: Vec<(usize, u64)> = (4..=max_n).map(|n| (n, 0u64)).chain((4..=max_n.min(8)).map(|n| (n, 512u64))).collect();
+    for (n, tail) in plan {
+        TAIL_BYTES.with(|t| t.set(tail));
+        let res = exhaustive(n);
+        TAIL_BYTES.with(|t| t.set(0));
+        match res {
             Ok((s, t)) => {
                 states += s;
                 transitions += t;
-                per_n.insert(format!("{n}"), json!({"states": s, "transitions": t}));
+                per_n.insert(if tail == 0 { format!("{n}") } else { format!("{n}+{tail}B") }, json!({"states": s, "transitions": t}));
             }
             Err((path, msg)) => {
-                let replay = json!({"property": "C06", "mode": "exhaustive", "data_blocks": n, "path": serde_json::to_value(&path).unwrap(), "message": msg});
+                let replay = json!({"property": "C06", "mode": "exhaustive", "data_blocks": n, "tail_bytes": tail, "path": serde_json::to_value(&path).unwrap(), "message": msg});
                 let known = env::report_violation("C06", "exhaustive", &replay);
                 ev.evaluations = transitions.max(1);
                 ev.samples.push(json!({"failing_path": format!("{path:?}")}));
